@@ -139,14 +139,27 @@ theorem equalDimsAt_agree (s0 : Shape) (rest : List Shape) (d : Nat) :
     · simp [h0, hr, toExcept]
   · simp [h0, toExcept]
 
-/-- The only input on which the two differ: the empty list of arrays (`to_check[0]` raises IndexError in the
-    code and in the Support model; the spectra-side copies answer "equal").  The spectra model only
-    ever applies them to two or three shapes. -/
-theorem empty_list_differs :
-    toExcept (Spectra.equalDimsAll []) ≠ ensureEqualDims [] none ∧
-    ∀ d, toExcept (Spectra.equalDimsAt [] d) ≠ ensureEqualDims [] (some d) := by
+/-- On the empty list of arrays both models now follow the code (`ensure_equal_dims([], [], f, dim)`):
+    `dim=None` raises IndexError (`to_check[0].ndim`), a given `dim` passes silently.  (The two models were
+    written independently and originally disagreed with each other — and each with the code in one of the
+    two cases — on this unreachable input; the composition proof exposed it, the real code decided.) -/
+theorem empty_list_agrees :
+    toExcept (Spectra.equalDimsAll []) = ensureEqualDims [] none ∧
+    ∀ d, toExcept (Spectra.equalDimsAt [] d) = ensureEqualDims [] (some d) := by
   refine ⟨by simp [Spectra.equalDimsAll, ensureEqualDims, toExcept], ?_⟩
   intro d
   simp [Spectra.equalDimsAt, ensureEqualDims, toExcept]
+
+theorem equalDimsAll_agree_all (ss : List Shape) :
+    toExcept (Spectra.equalDimsAll ss) = ensureEqualDims ss none := by
+  cases ss with
+  | nil => exact empty_list_agrees.1
+  | cons s0 rest => exact equalDimsAll_agree s0 rest
+
+theorem equalDimsAt_agree_all (ss : List Shape) (d : Nat) :
+    toExcept (Spectra.equalDimsAt ss d) = ensureEqualDims ss (some d) := by
+  cases ss with
+  | nil => exact empty_list_agrees.2 d
+  | cons s0 rest => exact equalDimsAt_agree s0 rest d
 
 end ComposeShapes
